@@ -660,7 +660,9 @@ func (c *Conn) heartBeat(ctx context.Context) {
 		case error:
 			// TODO: should we do something here?
 		default:
-			panic(fmt.Sprintf("gocql: unknown frame in response to options: %T", resp))
+			// a frame that does not answer OPTIONS: count it like any other failed
+			// heartbeat, a peer must not be able to take the process down with it
+			failures++
 		}
 	}
 }
